@@ -49,6 +49,48 @@ def single_edits(sql):
         yield "ins", stmts.join_tokens(toks[:i] + [INSERTS[(i * 7 + n) % len(INSERTS)]] + toks[i:])
 
 
+OPEN, CLOSE = {"(": ")", "[": "]", "{": "}", "<": ">"}, {")", "]", "}", ">"}
+
+
+def list_item_edits(sql):
+    """arity edits: every item of every comma-separated list (function arguments, struct fields, VALUES rows, IN lists,
+    column lists, type parameters) duplicated once and removed once"""
+    toks = stmts.split_tokens(sql)
+    stack = []          # (open index, [comma indices])
+    lists = []
+    for i, t in enumerate(toks):
+        if t in ("(", "[", "{"):
+            stack.append((i, []))
+        elif t in (")", "]", "}") and stack:
+            o, commas = stack.pop()
+            if commas:
+                lists.append((o, commas, i))
+        elif t == "," and stack:
+            stack[-1][1].append(i)
+    for o, commas, c in lists:
+        bounds = [o] + commas + [c]
+        for k in range(len(bounds) - 1):
+            a, b = bounds[k] + 1, bounds[k + 1]          # item tokens [a, b)
+            item = toks[a:b]
+            if not item:
+                continue
+            yield "item-dup", stmts.join_tokens(toks[:b] + [","] + item + toks[b:])
+            if k < len(bounds) - 2:
+                yield "item-del", stmts.join_tokens(toks[:a] + toks[b + 1:])
+            else:
+                yield "item-del", stmts.join_tokens(toks[:a - 1] + toks[b:])
+
+
+ARITY_BASES = [
+    ("bigquery", "SELECT [STRUCT('a' AS name, 1 AS score), STRUCT('b', 2)]"), ("bigquery", "SELECT STRUCT(1 AS a, 'x' AS b).a, ARRAY<STRUCT<a INT64, b STRING>>[(1, 'x'), (2, 'y')]"),
+    ("duckdb", "SELECT [{'a': 1, 'b': 2}, {'a': 3, 'b': 4}], MAP {'k': 1, 'l': 2}, STRUCT_PACK(a := 1, b := 2)"), ("duckdb", "SELECT LIST_VALUE(1, 2), ROW(1, 'a'), [1, 2][1:2]"),
+    ("presto", "SELECT ARRAY[ROW(1, 'a'), ROW(2, 'b')], MAP(ARRAY['a', 'b'], ARRAY[1, 2])"), ("spark", "SELECT NAMED_STRUCT('a', 1, 'b', 2), ARRAY(STRUCT(1, 'a'), STRUCT(2, 'b')), MAP('a', 1, 'b', 2)"),
+    ("snowflake", "SELECT OBJECT_CONSTRUCT('a', 1, 'b', 2), ARRAY_CONSTRUCT(1, 2), [1, 2]"), ("postgres", "SELECT ARRAY[1, 2], ROW(1, 'a'), (1, 2) = (1, 2)"),
+    ("clickhouse", "SELECT tuple(1, 'a'), [1, 2], map('a', 1, 'b', 2)"), ("", "INSERT INTO t (a, b) VALUES (1, 2), (3, 4)"), ("", "SELECT * FROM (VALUES (1, 'a'), (2, 'b')) AS v(x, y)"),
+    ("", "SELECT CAST(x AS STRUCT<a INT, b TEXT>), CAST(y AS DECIMAL(10, 2))"), ("", "CREATE TABLE t (a INT, b TEXT, PRIMARY KEY (a, b), UNIQUE (b, a))"),
+    ("snowflake", "SELECT * FROM t PIVOT(SUM(v) FOR k IN ('a', 'b')) AS p (x, y, z)"), ("", "SELECT COALESCE(a, b), IF(a, b, c), SUBSTRING(s, 1, 2), DATE_ADD(d, 1, 'day') FROM t"),
+    ("tsql", "SELECT IIF(a > 1, 'x', 'y'), DATEADD(day, 1, d), CONVERT(VARCHAR(10), x, 120) FROM t"), ("mysql", "SELECT IF(a, b, c), CONCAT_WS(',', a, b), DATE_ADD(d, INTERVAL 1 DAY), GROUP_CONCAT(a, b SEPARATOR ',') FROM t"),
+]
 KW_BASES = [
     "SELECT a FROM t", "SELECT a FROM t AS x", "SELECT a FROM t WHERE a > 1", "SELECT a, b FROM t JOIN u ON t.k = u.k",
     "SELECT a FROM t GROUP BY a", "SELECT a FROM t ORDER BY a", "SELECT f(a) OVER (PARTITION BY b) FROM t",
@@ -377,6 +419,46 @@ def worker(ctx):
         ctx.count("punctuation_neighbourhood_inputs")
         for d in all_d:
             observe(ctx, text, d, _EL.IMMEDIATE, f"punct:{bi}:{pos}")
+    # ---- (1f) dialect-specific statements (harvested vocabulary) written to other dialects, and their arity neighbourhood;
+    #      seed-independent and the same in both tiers, so that the set of findings reachable here is fixed
+    from ..gen.harvest import harvested as _harvested
+
+    named = [d for d in all_d if d]
+    k = 0
+    for di, d in enumerate(named):
+        texts, _found = _harvested(d)
+        for ti, sql in enumerate(texts):
+            k += 1
+            if k % ctx.nshards != ctx.shard:
+                continue
+            if ctx.expired():
+                break
+            ctx.count("harvested_inputs")
+            trees = observe(ctx, sql, d, _EL.IMMEDIATE, "harvested")
+            if trees:
+                for j in range(3):
+                    generate_all(ctx, sql, d, _EL.IMMEDIATE, trees, named[(di * 7 + ti * 3 + j * 11) % len(named)])
+            if ti % 3 == 0:
+                for k2, (kind, text) in enumerate(list_item_edits(sql)):
+                    if k2 >= 30:
+                        break
+                    ctx.count("arity_edit_inputs")
+                    tr = observe(ctx, text, d, _EL.IMMEDIATE, "harvested-arity")
+                    if tr:
+                        for tgt in (named[(di * 5 + ti + k2) % len(named)], "duckdb", "snowflake"):
+                            generate_all(ctx, text, d, _EL.IMMEDIATE, tr, tgt)
+    # ---- (1g) compound literals and lists of a few dialects: arity neighbourhood written to every dialect ----
+    n = 0
+    for d, base in ARITY_BASES:
+        for kind, text in [("base", base)] + list(list_item_edits(base)):
+            n += 1
+            if n % ctx.nshards != ctx.shard:
+                continue
+            ctx.count("arity_base_inputs")
+            tr = observe(ctx, text, d, _EL.IMMEDIATE, "arity-base")
+            if tr:
+                for tgt in named:
+                    generate_all(ctx, text, d, _EL.IMMEDIATE, tr, tgt)
     # ---- (1c) type zoo: every type keyword x 0..4 parameters, parsed in a few dialects, written to every dialect ----
     type_zoo(ctx, all_d, spec.get("zoo_stride", 1))
     # ---- (2) seeded -------------------------------------------------------------------
